@@ -102,6 +102,30 @@ def write_image(detector, value: int = 1, dtype: str = "uint16") -> None:
 # ---------------------------------------------------------------------------------------- C02
 # Per-run state of the C02 probes (set by harness/c02.py before every run).  The writer counts its
 # own calls: it must not rely on the clock it helps to observe.
+def held(cont):
+    """what a bucket container holds, WITHOUT triggering any conversion: the private buffer when it is found (under its
+    usual name, or — after a rename — as the only ndarray / DataArray / None attribute whose name speaks of an array),
+    else through the public accessors (`array`, `array_3d`); None = holds nothing"""
+    v = getattr(cont, "_array", _MISSING)
+    if v is not _MISSING:
+        return v
+    try:
+        import xarray as xr
+
+        cands = [(k, x) for k, x in vars(cont).items()
+                 if "arr" in k.lower() and (x is None or isinstance(x, (np.ndarray, xr.DataArray)))]
+        if len(cands) == 1:
+            return cands[0][1]
+    except Exception:  # noqa: BLE001
+        pass
+    for acc in ("array", "array_3d"):
+        try:
+            return getattr(cont, acc)
+        except Exception:  # noqa: BLE001  (not initialised / other dimensionality)
+            continue
+    return None
+
+
 C02 = {"calls": 0, "plan": []}
 C02_BIG = 999_999_999  # token of "some content that is not one of the writer's constants"
 
@@ -147,11 +171,11 @@ def c02_state(detector) -> list:
     if len(charge_frame(ch)):
         charge = 10**6 + int(round(float(charge_frame(ch)["number"].sum())))
     else:
-        charge = _c02_tok(held_array(ch))
+        charge = _c02_tok(held(ch))
         if charge == 0:
             charge = None
-    return [scene, _c02_tok(held_array(container(detector, "photon"))), charge, _c02_tok(held_array(container(detector, "pixel"))),
-            _c02_tok(held_array(container(detector, "signal"))), _c02_tok(held_array(container(detector, "image")))]
+    return [scene, _c02_tok(held(container(detector, "photon"))), charge, _c02_tok(held(container(detector, "pixel"))),
+            _c02_tok(held(container(detector, "signal"))), _c02_tok(held(container(detector, "image")))]
 
 
 def c02_apply(detector, ops) -> None:
@@ -447,7 +471,7 @@ def c03_visible(detector) -> dict:
         if b == "charge" and len(charge_frame(c)):
             arr = _c03_charge_of_frame(c, detector.geometry)  # never through `Charge.array`: observing must not convert / cache
         else:
-            arr = held_array(c)
+            arr = held(c)
         if arr is None:
             out[b] = None
         elif isinstance(arr, np.ndarray):
@@ -487,20 +511,20 @@ def c03_apply(detector, ops) -> None:
             if b == "charge":
                 c.add_charge_array(np.full((rows, cols), float(k)))
             else:
-                held = held_array(c)
-                held += np.asarray(k, dtype=held.dtype)  # in place, on the array the bucket holds
+                arr = c.array  # public getter: the array the bucket holds
+                arr += np.asarray(k, dtype=arr.dtype)  # in place
         elif kind == "same":  # ["same", bucket]  rewrite the bucket with a copy of what it holds
             b = op[1]
             c = getattr(detector, b)
-            if held_array(c) is not None and b != "charge":
-                c.array = np.array(held_array(c), copy=True)
+            if held(c) is not None and b != "charge":
+                c.array = np.array(c.array, copy=True)
         elif kind == "zero":  # ["zero", bucket, dtype]  every entry set to exactly 0 (charge: emptied)
             b = op[1]
             if b == "charge":
                 detector.charge.empty()
             else:
                 c = getattr(detector, b)
-                c.array = np.zeros((rows, cols), dtype=held_array(c).dtype if held_array(c) is not None else np.dtype(op[2]))
+                c.array = np.zeros((rows, cols), dtype=c.array.dtype if held(c) is not None else np.dtype(op[2]))
         elif kind == "clusters":  # ["clusters", "add_charge"|"dataframe", [[number, row, col] …]]
             _c03_clusters(detector, op[2], op[1])
         elif kind == "cl_scale":  # ["cl_scale", k]  every cluster's number × k, through set_frame_values
